@@ -133,7 +133,7 @@ class Eval:
 
         def atom_text(a: Atom):
             if a.node is None:
-                raise AnalysisError(f"fmt_eval: atom {a.node_tag} has no node")
+                return "<" + a.node_tag.replace(" ", "_") + ">"  # opaque payload (type name, table values)
             if a.node.cls.kind == "call":
                 return "fn(" + ", ".join(self.render(self.skeleton_or_leaf(x)) for x in a.node.children["args"]) + ")"
             return self.render(self.skeleton(a.node))
@@ -283,7 +283,10 @@ class Eval:
                 if e.attr == "op":
                     return base.cls.op
                 if e.attr in base.children:
-                    return base.children[e.attr]
+                    v = base.children[e.attr]
+                    if isinstance(v, str) and v.isupper():
+                        return Str([Atom(f"{base.tag}.{e.attr}")])  # opaque payload (e.g. table values)
+                    return v
                 if e.attr == "name":
                     return Str([Atom(base.tag + ".name")])
                 raise AnalysisError(f"fmt_eval: attribute {e.attr} of {base.cls.name} not modelled")
@@ -307,6 +310,9 @@ class Eval:
             a = self._expr(e.left, env)
             b = self._expr(e.comparators[0], env)
             op = e.ops[0]
+            if isinstance(op, (ast.Is, ast.IsNot)) and (b is None or isinstance(b, bool)):
+                r = a is b
+                return r if isinstance(op, ast.Is) else not r
             if isinstance(a, (int, float)) and isinstance(b, (int, float)) and not isinstance(a, bool):
                 return {
                     ast.GtE: a >= b, ast.Gt: a > b, ast.LtE: a <= b, ast.Lt: a < b, ast.Eq: a == b, ast.NotEq: a != b,
@@ -337,6 +343,11 @@ class Eval:
                 self._store(g.target, x, env2)
                 out.append(self._expr(e.elt, env2))
             return out
+        if isinstance(e, ast.IfExp):
+            c = self._expr(e.test, env)
+            if not isinstance(c, bool):
+                raise AnalysisError(f"fmt_eval: undecidable condition `{ast.unparse(e.test)}`")
+            return self._expr(e.body if c else e.orelse, env)
         if isinstance(e, ast.Call):
             return self._call(e, env)
         raise AnalysisError(f"fmt_eval: unsupported expression `{ast.unparse(e)[:60]}`")
